@@ -331,3 +331,44 @@ def split_tuple_assigns(fn: ast.FunctionDef):
 
     fn.body = rewrite(fn.body)
     return ast.fix_missing_locations(fn)
+
+
+# ------------------------------------------------------------------------------------------ a loop over a precomputed schedule of pairs
+def unflatten_schedules(fn: ast.FunctionDef):
+    """`sched = [(i, j) for i... in A for j in B if c]` ... `for i2, j2 in sched: BODY` is read as the loop nest the comprehension
+    enumerates: `for i... in A: for j in B: if not c: continue; BODY[i2 := i, j2 := j]` — when `sched` is bound once, used once, and
+    BODY does not change what A and B read."""
+    fn = copy.deepcopy(fn)
+    binds = {}
+    for a in ast.walk(fn):
+        if isinstance(a, ast.Assign) and len(a.targets) == 1 and isinstance(a.targets[0], ast.Name):
+            binds.setdefault(a.targets[0].id, []).append(a)
+
+    def rewrite(stmts):
+        out = []
+        for st in stmts:
+            for fld in ("body", "orelse", "finalbody"):
+                blk = getattr(st, fld, None)
+                if isinstance(blk, list) and blk and isinstance(blk[0], ast.stmt):
+                    setattr(st, fld, rewrite(blk))
+            if isinstance(st, ast.For) and isinstance(st.iter, ast.Name) and not st.orelse and isinstance(st.target, ast.Tuple) and len(st.target.elts) == 2 \
+                    and all(isinstance(e, ast.Name) for e in st.target.elts) and len(binds.get(st.iter.id, [])) == 1:
+                comp = binds[st.iter.id][0].value
+                uses = [n for n in ast.walk(fn) if isinstance(n, ast.Name) and n.id == st.iter.id and isinstance(n.ctx, ast.Load)]
+                if isinstance(comp, ast.ListComp) and len(comp.generators) == 2 and isinstance(comp.elt, ast.Tuple) and len(comp.elt.elts) == 2 and len(uses) == 1 \
+                        and all(isinstance(e, ast.Name) for e in comp.elt.elts) and not comp.generators[0].ifs:
+                    g0, g1 = comp.generators
+                    ren = _Rename({st.target.elts[0].id: comp.elt.elts[0].id, st.target.elts[1].id: comp.elt.elts[1].id})
+                    body = [ren.visit(copy.deepcopy(b)) for b in st.body]
+                    guards = [ast.If(test=ast.UnaryOp(op=ast.Not(), operand=copy.deepcopy(c)), body=[ast.Continue()], orelse=[]) for c in g1.ifs]
+                    inner = ast.For(target=copy.deepcopy(g1.target), iter=copy.deepcopy(g1.iter), body=guards + body, orelse=[])
+                    outer = ast.For(target=copy.deepcopy(g0.target), iter=copy.deepcopy(g0.iter), body=[inner], orelse=[])
+                    for x in ast.walk(outer):
+                        ast.copy_location(x, st)
+                    out.append(outer)
+                    continue
+            out.append(st)
+        return out
+
+    fn.body = rewrite(fn.body)
+    return ast.fix_missing_locations(fn)
